@@ -42,6 +42,7 @@ func main() {
 	}
 	defer os.RemoveAll(tmp)
 	cfg := &Config{Repo: *repo, Verif: *verif, Tmp: tmp, Tier: *tier, Seed: seed, Jobs: *jobs, Verbose: *verbose, OnlyH: *only, NoReplay: *noReplay, DumpSMT: *dump}
+	verboseLog = *verbose
 	switch cmd {
 	case "list":
 		hs, _, err := discoverHarnesses(cfg)
